@@ -11,7 +11,14 @@ import (
 	"time"
 )
 
-const Root = "/verif"
+// Root is where evidence/, replays/ are written and known_findings.json is read ("/verif"; a development run may
+// redirect the outputs with VERIF_OUT, known_findings.json is always read from /verif).
+var Root = func() string {
+	if s := os.Getenv("VERIF_OUT"); s != "" {
+		return s
+	}
+	return "/verif"
+}()
 
 type Known struct {
 	Property string `json:"property"`
@@ -22,7 +29,7 @@ type Known struct {
 }
 
 func LoadKnown() []Known {
-	bz, err := os.ReadFile(filepath.Join(Root, "known_findings.json"))
+	bz, err := os.ReadFile("/verif/known_findings.json")
 	if err != nil {
 		return nil
 	}
